@@ -115,6 +115,17 @@ theorem F_congr (X : List Name) {E E' : List Name} (h : ∀ v, v ∈ E ↔ v ∈
   intro x _
   simp only [h x]
 
+/-- members of `E` that are intervened on do not matter -/
+theorem F_congr_mod (X : List Name) {E E' : List Name} (h : ∀ v, v ∉ X → (v ∈ E ↔ v ∈ E')) :
+    F M G X E = F M G X E' := by
+  unfold F
+  congr 1
+  apply List.filter_congr
+  intro x _
+  by_cases hx : x ∈ X
+  · simp [hx]
+  · simp only [h x hx]
+
 theorem F_pos (hM : M.Compatible G) (X E : List Name) (σ : Val) : 0 < F M G X E σ :=
   Scm.sumVars_pos _ _ _ (fun x _ => hM.card_pos x)
     (fun τ => Scm.Q_pos hM _ (fun _ hv => (List.mem_filter.mp hv).1) τ) σ
@@ -221,13 +232,21 @@ theorem prDo_eq_F (hM : M.Compatible G) (hG : G.WF) (σ : Val) (dos ev : List (N
 
 /-! ### probabilities whose variables live in one world -/
 
-/-- all variables carry the same un-starred subscripts `w` and are not starred themselves -/
-def InWorld (w : List Iv) (vs : List Var) : Prop := ∀ v ∈ vs, v.ivs = w ∧ v.star = none
+/-- all variables carry the same un-starred subscripts `w` and are not starred (`+X`) themselves; the spelling `-X`
+of a variable in event position reads the same value as `X` -/
+def InWorld (w : List Iv) (vs : List Var) : Prop := ∀ v ∈ vs, v.ivs = w ∧ v.star ≠ some true
 
-theorem atom_inWorld (σ σ' : Val) {w : List Iv} {v : Var} (h : v.ivs = w ∧ v.star = none) :
+theorem atom_inWorld (σ σ' : Val) {w : List Iv} {v : Var} (h : v.ivs = w ∧ v.star ≠ some true) :
     Var.atom σ σ' v = ⟨v.name, w.map (Iv.eval σ σ'), σ v.name⟩ := by
   unfold Var.atom Var.value
-  rw [h.1, h.2]
+  rw [h.1]
+  have h2 := h.2
+  cases hs : v.star with
+  | none => rfl
+  | some b =>
+    cases b with
+    | true => exact absurd hs h2
+    | false => rfl
 
 theorem prAtoms_world (hM : M.Compatible G) (hG : G.WF) (σ σ' : Val) (w : List Iv)
     (hw : ∀ i ∈ w, i.star = false) (vs : List Var) (hne : vs ≠ []) (hvs : InWorld w vs) :
